@@ -52,6 +52,7 @@ theorem failed_command_is_identity_partial (d : Dir) (c : Cmd) (e : Err) (l : Bo
   | editSet b n sp => simp [step] at h
   | editRemove b n => simp [step] at h
   | corrupt => simp [step] at h
+  | fileSet b f => simp [step] at h
 
 /-- every command of the history fails and none is a wipe -/
 def AllFail : Dir → List Cmd → Prop
@@ -105,6 +106,13 @@ theorem edit_keeps_build_directory (d : Dir) (b : Bool) (n : Str) (sp : Option O
 theorem wipe_ignores_coredata (d : Dir) (nd : Dict) :
     step d (.wipe nd) = step { d with core := none, intro := none } (.wipe nd) := rfl
 
+/-- `interpret` reads only the source tree -/
+theorem interpret_congr (b : Bool) (c : Core) (d d' : Dir) (cmd : Dict)
+    (h1 : d'.top = d.top) (h2 : d'.sub = d.sub) (h3 : d'.topFile = d.topFile) (h4 : d'.subFile = d.subFile)
+    (h5 : d'.pdoTop = d.pdoTop) (h6 : d'.pdoSub = d.pdoSub) (h7 : d'.spcall = d.spcall) :
+    interpret b c d' cmd = interpret b c d cmd := by
+  simp only [interpret, Dir.topEff, Dir.subEff, h1, h2, h3, h4, h5, h6, h7]
+
 /-- `--wipe` = a fresh `meson setup` in an empty directory that is given the recorded command line: same outcome,
 same coredata, same introspection data, and on success the same cmd_line.txt. -/
 theorem wipe_eq_replay (d : Dir) (f : Dict) (hf : d.cmdline = some f) (hn : (f.map Prod.fst).Nodup) :
@@ -112,10 +120,15 @@ theorem wipe_eq_replay (d : Dir) (f : Dict) (hf : d.cmdline = some f) (hn : (f.m
     let r := step d.emptied (.setup f)
     w.2 = r.2 ∧ w.1.core = r.1.core ∧ w.1.intro = r.1.intro ∧ (w.2.isOk = true → w.1.cmdline = r.1.cmdline) := by
   have hm : mergeCmd f [] = f := rfl
-  simp only [step, Dir.emptied, hf, firstInvocation, userOpts, hm, mergeCmd_self f hn, interpret]
-  cases interpProg true newCore.initialized d.top d.sub d.pdoTop d.pdoSub d.spcall f newCore.store with
-  | mk r s' =>
-    cases r with
+  cases d with
+  | mk top sub topFile subFile pdoTop pdoSub spcall core corrupt cmdline intro =>
+    simp only at hf
+    subst hf
+    have e1 := interpret_congr true newCore (Dir.mk top sub topFile subFile pdoTop pdoSub spcall none false none none)
+      (Dir.mk top sub topFile subFile pdoTop pdoSub spcall none false (some f) none) f rfl rfl rfl rfl rfl rfl rfl
+    simp only [step, Dir.emptied, firstInvocation, userOpts, hm, mergeCmd_self f hn, e1]
+    generalize interpret true newCore (Dir.mk top sub topFile subFile pdoTop pdoSub spcall none false none none) f = res
+    cases res with
     | error e => simp [commitFirst, Out.isOk]
     | ok r =>
       simp only [commitFirst]
@@ -193,6 +206,30 @@ theorem removed_option_vanishes_partial (sub : Str) (objs : List (Key × Obj)) (
     (hn : objs.any (fun p => p.1 == k) = false) : s'.isProjectOption k = false :=
   update_removes sub objs s s' h k hs hn
 
+/-- … in particular when the new declaration list is EMPTY (the last option removed, the file left empty or with
+comments only, or the file deleted): nothing is special-cased, every project option of that (sub)project is gone -/
+theorem removed_option_vanishes_empty (sub : Str) (s s' : Store) (h : updateProjectOptions sub [] s = (.ok (), s'))
+    (k : Key) (hs : k.sub = some sub) : s'.isProjectOption k = false :=
+  update_removes sub [] s s' h k hs (by simp)
+
+/-- re-reading an option file without declarations always succeeds -/
+theorem empty_option_file_is_read (proj : Str) (s : Store) : (loadOptionFile proj [] s).1 = .ok () := by
+  simp [loadOptionFile, fileObjs, mkObjs, bind, M.bind, M.ofExcept, M.pure, updateProjectOptions, M.forEach, M.get, M.modify,
+    unlinkChildren]
+
+/-- the seeded guard `if oi.options: update_project_options(...)`: the removal pass is skipped for a file without
+declarations -/
+def loadOptionFileGuarded (proj : Str) (defs : Defs) : M Unit :=
+  if (fileObjs proj defs).isEmpty then M.pure () else loadOptionFile proj defs
+
+/-- … refuted on a witness: with the guard the removed options stay registered, without it they vanish -/
+theorem guarded_load_keeps_removed_options :
+    sOverridden.isProjectOption kSub = true ∧
+    (loadOptionFileGuarded "sub".toList [] sOverridden).2.isProjectOption kSub = true ∧
+    (loadOptionFile "sub".toList [] sOverridden).2.isProjectOption kSub = false ∧
+    (getValueFor (loadOptionFile "sub".toList [] sOverridden).2 kSub).toOption = none := by
+  decide +kernel
+
 /-! ## inheriting options and overrides -/
 
 /-- an inheriting option reads the object its `parent` field points to; this is the *current* top-level option as
@@ -242,22 +279,12 @@ theorem drop_builtin_override_returns_global (s : Store) (k : Key) (hk : ahas k 
 
 /-! ## `ParentCurrent`: every parent pointer is the object registered under the top-level key -/
 
-/-- `update_project_options` keeps the invariant for *all* children of a replaced object, yielding or overridden
-(the removal pass must not delete a top-level option that still has children) -/
+/-- `update_project_options` keeps the invariant: all children of a replaced object are re-pointed (yielding or
+overridden), the children of a removed option are unlinked -/
 theorem update_project_options_keeps_parentCurrent (sub : Str) (objs : List (Key × Obj)) (s : Store)
-    (hw : Wf s) (hpc : ParentCurrent s) (hn : ∀ kv ∈ objs, kv.2.parent = none)
-    (hkeep : ∀ k id o pid, alookup k (M.forEach (updateOne sub) objs s).2.options = some id →
-      (M.forEach (updateOne sub) objs s).2.heap[id]? = some o → o.parent = some pid →
-      goneKey objs (M.forEach (updateOne sub) objs s).2 sub k.asRoot = false) :
+    (hw : Wf s) (hpc : ParentCurrent s) (hn : ∀ kv ∈ objs, kv.2.parent = none) :
     ParentCurrent (updateProjectOptions sub objs s).2 :=
-  MesonModel.Options.update_project_options_keeps_parentCurrent sub objs s hw hpc hn hkeep
-
-/-- … unconditionally when the option file of a subproject is re-read, and for the loop over the entries of any
-option file (every replacement, every new option) -/
-theorem update_subproject_options_keeps_parentCurrent (sub : Str) (objs : List (Key × Obj)) (s : Store)
-    (hsub : sub ≠ []) (hw : Wf s) (hpc : ParentCurrent s) (hn : ∀ kv ∈ objs, kv.2.parent = none) :
-    ParentCurrent (updateProjectOptions sub objs s).2 :=
-  MesonModel.Options.update_subproject_options_keeps_parentCurrent sub objs s hsub hw hpc hn
+  MesonModel.Options.update_project_options_keeps_parentCurrent sub objs s hw hpc hn
 
 theorem update_entries_keep_parentCurrent (sub : Str) (objs : List (Key × Obj)) (s : Store) (hw : Wf s)
     (hpc : ParentCurrent s) (hn : ∀ kv ∈ objs, kv.2.parent = none) :
@@ -299,30 +326,29 @@ theorem repointYieldingOnly_counterexample :
 
 /-! ## the directory invariant, at the level of `step` and of histories -/
 
-/-- the well-formedness predicate on directory states is an invariant of `step` for every command (setup,
-reconfigure, configure, wipe, regeneration after a corrupt coredata.dat, option-file edits, failing variants) that does
-not delete an option from the top-level option file -/
-theorem dirInv_step (d : Dir) (c : Cmd) (hc : NoTopRemoval c) (hd : DirInv d) : DirInv (step d c).1 :=
-  step_inv d c hc hd
+/-- the well-formedness predicate on directory states is an invariant of `step` for EVERY command: setup,
+reconfigure, configure, wipe, regeneration after a corrupt coredata.dat, option-file edits (also: last option removed,
+file deleted / re-created / renamed), and all failing variants -/
+theorem dirInv_step (d : Dir) (c : Cmd) (hd : DirInv d) : DirInv (step d c).1 :=
+  step_inv d c hd
 
-/-- `ParentCurrent`, lifted to histories: after any history from an unconfigured directory that never deletes a
-top-level option, distinct keys own distinct objects and every parent pointer is the registered top-level object -/
-theorem parentCurrent_of_history (h : List Cmd) (d : Dir) (hd : d.core = none) (hn : ∀ c ∈ h, NoTopRemoval c)
+/-- `ParentCurrent`, lifted to histories: after any history from an unconfigured directory, distinct keys own
+distinct objects and every parent pointer is the registered top-level object -/
+theorem parentCurrent_of_history (h : List Cmd) (d : Dir) (hd : d.core = none)
     (c : Core) (hc : (runHist d h).core = some c) : Wf c.store ∧ ParentCurrent c.store :=
-  let hi := runHist_inv h d hn (dirInv_empty d hd) c hc
-  ⟨hi.1, hi.2.1⟩
+  runHist_inv h d (dirInv_empty d hd) c hc
 
-/-- `yield_follows_current_parent` at history level (histories that never delete a top-level option): an option that
-inherits reads the object registered under its top-level key, i.e. the very object `-Dname=…` sets; when that
-object is itself plain (not inheriting, not overridden) the two effective values are equal -/
-theorem yield_follows_current_parent_partial_hist (h : List Cmd) (d : Dir) (hd : d.core = none)
-    (hn : ∀ c ∈ h, NoTopRemoval c) (c : Core) (hc : (runHist d h).core = some c)
+/-- `yield_follows_current_parent` for ALL histories: an option that inherits reads the object registered under its
+top-level key, i.e. the very object `-Dname=…` sets; when that object is itself plain (not inheriting, not
+overridden) the two effective values are equal -/
+theorem yield_follows_current_parent_hist (h : List Cmd) (d : Dir) (hd : d.core = none)
+    (c : Core) (hc : (runHist d h).core = some c)
     (k : Key) (id pid : Nat) (o p : Obj) (hm : k.machine = .host)
     (hk : alookup k c.store.options = some id) (ho : c.store.heap[id]? = some o) (ha : alookup k c.store.augments = none)
     (hy : o.yielding = true) (hp : o.parent = some pid) (hpo : c.store.heap[pid]? = some p) :
     alookup k.asRoot c.store.options = some pid ∧ getValueFor c.store k = .ok p.value ∧
     (p.yielding = false → alookup k.asRoot c.store.augments = none → getValueFor c.store k.asRoot = getValueFor c.store k) := by
-  obtain ⟨_, hpc⟩ := parentCurrent_of_history h d hd hn c hc
+  obtain ⟨_, hpc⟩ := parentCurrent_of_history h d hd c hc
   have hroot := hpc k id o pid hk ho hp
   have he : ensureKey c.store k = k := ensureKey_of_host c.store k hm
   have hv : getValueFor c.store k = .ok p.value := by
@@ -334,15 +360,15 @@ theorem yield_follows_current_parent_partial_hist (h : List Cmd) (d : Dir) (hd :
   rw [hv]
   simp [getValueFor, getIdAndValue, resolveId, her, hroot, hpo, har, hpy, Except.map]
 
-/-- `drop_override_returns_inherited` at history level: after such a history, `-Usub:opt` on an option that has a
-parent returns it to the value of the object registered under the top-level key -/
+/-- `drop_override_returns_inherited` for ALL histories: `-Usub:opt` on an option that has a parent returns it to the
+value of the object registered under the top-level key -/
 theorem drop_override_returns_inherited_hist (h : List Cmd) (d : Dir) (hd : d.core = none)
-    (hn : ∀ c ∈ h, NoTopRemoval c) (c : Core) (hc : (runHist d h).core = some c)
+    (c : Core) (hc : (runHist d h).core = some c)
     (k : Key) (id pid : Nat) (o p : Obj) (hx : c.store.isCross = false) (hm : k.machine = .host) (hst : k.subTruthy = true)
     (ha : alookup k c.store.augments = none) (hk : alookup k c.store.options = some id) (ho : c.store.heap[id]? = some o)
     (hp : o.parent = some pid) (hpo : c.store.heap[pid]? = some p) :
     alookup k.asRoot c.store.options = some pid ∧ getValueFor (configureOne (k, none) c.store).2 k = .ok p.value := by
-  obtain ⟨hw, hpc⟩ := parentCurrent_of_history h d hd hn c hc
+  obtain ⟨hw, hpc⟩ := parentCurrent_of_history h d hd c hc
   exact drop_override_returns_inherited_current c.store k id pid o p hx hm hw hpc hst ha hk ho hp hpo
 
 /-- the command names option `n` (sets or drops it, edits it, or re-derives everything) -/
@@ -354,6 +380,7 @@ def Mentions (n : Str) : Cmd → Bool
   | .editSet _ m _ => m == n
   | .editRemove _ m => m == n
   | .corrupt => false
+  | .fileSet _ _ => true
 
 /-- the full history-level clause, kept visible: a command that does not mention option `n` (and is not a `buildtype`
 / `prefix` assignment, which fan out), run on a well-formed directory whose option files hold no unread edit of
@@ -363,7 +390,7 @@ option file whose entry for `n` is unchanged leaves `n` alone" threaded through 
 def value_persists_full : Prop :=
   ∀ (d : Dir) (c : Cmd) (n : Str) (proj : Str), DirInv d → Mentions n c = false →
     Mentions sBuildtype c = false → Mentions sPrefix c = false →
-    (∀ co, d.core = some co → co.optFiles = [([], d.top), (sSub, d.sub)]) →
+    (∀ co, d.core = some co → co.optFiles = [([], d.topFile, d.topEff), (sSub, d.subFile, d.subEff)]) →
     (step d c).2.isOk = true → (step d c).1.core.isSome = true → d.core.isSome = true →
     (step d c).1.eff proj n = d.eff proj n
 
@@ -491,6 +518,23 @@ theorem override_equal_to_own_value_is_saved :
     (runHist d0 hLost).cmdline = some [bn, (sk "flag", sv "true")] := by
   decide +kernel
 
+/-- the last option of the subproject removed (file present, no declarations) / the file deleted: after the next
+reconfigure none of its options is registered, setting one is refused, and a child whose parent option was removed
+from the top-level file reads its own value again -/
+def hEmptySub : List Cmd := [.setup [bn], .editRemove true "s_str".toList, .editRemove true "s_combo".toList,
+  .editRemove true "shared".toList, .editRemove true "flag".toList, .reconfigure [bn]]
+def hDeletedSub : List Cmd := [.setup [bn], .fileSet true none, .reconfigure [bn]]
+def hParentRemoved : List Cmd := [.setup [bn], .editRemove false "flag".toList, .reconfigure [bn]]
+
+theorem emptied_option_file_removes_everything :
+    ((runHist d0 hEmptySub).core.map (fun c => c.projectKeys.filter (fun k => k.sub == some sSub))) = some [] ∧
+    (step (runHist d0 hEmptySub) (.configure [(sk "s_str", some (sv "x"))])).2.isOk = false ∧
+    ((runHist d0 hDeletedSub).core.map (fun c => c.projectKeys.filter (fun k => k.sub == some sSub))) = some [] ∧
+    effOk (runHist d0 [.setup [bn]]) sSub "flag" = some (.bool false) ∧
+    effOk (runHist d0 hParentRemoved) sSub "flag" = some (.bool true) ∧
+    ((runHist d0 hParentRemoved).core.map (fun c => staleKeys c.store)) = some [] := by
+  decide +kernel
+
 /-- a changed type: the option is replaced and starts from its new default -/
 def hRetype : List Cmd := [.setup [bn, (gk "t_int", sv "7")], .editSet false "t_int".toList (S "seven"), .reconfigure [bn]]
 
@@ -530,17 +574,14 @@ example : AllFailOrEdit (runHist d0 [.setup [bn]])
   refine ⟨(by intro nd h; cases h), Or.inl ⟨.meson, true, (by decide +kernel)⟩, ?_⟩
   exact ⟨(by intro nd h; cases h), Or.inr (Or.inr ⟨true, _, rfl⟩), trivial⟩
 
-/-- the hypotheses of `yield_follows_current_parent_partial_hist` are met by a non-trivial reachable state: after the
-parent object was replaced while the child was overridden and the override was dropped, the child is a registered,
+/-- the hypotheses of `yield_follows_current_parent_hist` are met by a non-trivial reachable state: after the parent
+object was replaced while the child was overridden and the override was dropped, the child is a registered,
 inheriting option whose parent pointer is the registered top-level object -/
-example : (∀ c ∈ hOverriddenStale, NoTopRemoval c) ∧ d0.core = none ∧
+example : d0.core = none ∧
     ((runHist d0 hOverriddenStale).core.map (fun c =>
       (alookup (sk "shared") c.store.options).any (fun id => (c.store.heap[id]?).any (fun o =>
-        o.yielding && o.parent.isSome && (alookup (sk "shared") c.store.augments).isNone)))) = some true := by
-  refine ⟨?_, rfl, by decide +kernel⟩
-  intro c hc
-  simp only [hOverriddenStale, List.mem_cons, List.not_mem_nil, or_false] at hc
-  rcases hc with rfl | rfl | rfl | rfl | rfl | rfl <;> trivial
+        o.yielding && o.parent.isSome && (alookup (sk "shared") c.store.augments).isNone)))) = some true :=
+  ⟨rfl, by decide +kernel⟩
 
 /-- the recorded command line of a real history has distinct keys (hypothesis of `wipe_eq_replay`) -/
 example : ((runHist d0 hWipe).cmdline.map (fun f => decide ((f.map Prod.fst).Nodup))) = some true := by
